@@ -28,7 +28,8 @@ from harness import sched as S
 from harness.core import VERIF, Ctx, Rng
 
 RULE = (
-    "a case is one schedule: a role vector (2-5 writers that append/reset and commit, roll back, or commit nothing; "
+    "a case is one schedule: a role vector (2-5 writers that append/reset and commit, roll back, commit nothing, end through a "
+    "with block, through an exception in its body, try to end twice, or are opened with replacement=True; "
     "0-3 readers), a granularity (line = preemption before every source line of the anchored functions, sync = only "
     "at lock/event operations) and the list of thread ids chosen at every choice point, produced from the SplitMix64 "
     "state by one of four strategies (uniform, sticky 3/4, sticky 15/16, PCT with 1-3 priority changes) or by the "
@@ -79,10 +80,12 @@ ROLE_INFO = {
     "wca": (True, "a", "commit"), "wcr": (True, "r", "commit"), "wra": (False, "a", "rollback"),
     "wcn": (False, "n", "commit"), "wwa": (True, "a", "with"), "wxa": (False, "a", "with-exc"),
     "wda": (True, "a", "double"),
+    "wcR": (True, "a", "commit"), "wrR": (False, "a", "rollback"),  # opened with writer(replacement=True)
     "rd": (False, "n", "rollback"), "rdw": (False, "n", "with"),
 }
 ROLES = tuple(ROLE_INFO)
 READERS = ("rd", "rdw")
+REPLACEMENT = ("wcR", "wrR")
 
 
 class Boom(Exception):
@@ -282,8 +285,9 @@ class Observer:
                 self.bad("C12/mutex/two-open-write-transactions", f"writers {self.open_writers} hold open write transactions at once")
             if self.z._write_txn is not txn:
                 self.bad("C12/mutex/returned-txn-is-not-write-txn", f"writer {tid} got a transaction that is not zone._write_txn")
-            if tuple(snap) != content_of(self.z.nodes):
-                self.bad("C12/serial/stale-snapshot", f"writer {tid} was given a copy {snap} of a zone that is {content_of(self.z.nodes)}")
+            want = () if self.roles[tid] in REPLACEMENT else content_of(self.z.nodes)
+            if tuple(snap) != want:
+                self.bad("C12/serial/stale-snapshot", f"writer {tid} ({self.roles[tid]}) was given a private version {snap}, the zone is {content_of(self.z.nodes)}")
             if tid not in self.admitted:
                 self.on_admit(tid)
             self.local[tid] = (vid, tuple(snap))
@@ -351,7 +355,7 @@ def run_schedule(roles, mode, chooser, max_steps=None):
         def writer_prog(t, role):
             def prog():
                 sch.mark("w-call")
-                txn = zone.writer()
+                txn = zone.writer(replacement=True) if role in REPLACEMENT else zone.writer()
                 sch._micro(sch.current())
                 sch.op(("ret", txn, txn.version.id, content_of(txn.version.nodes)))
                 sch.mark("w-body")
@@ -440,7 +444,7 @@ def run_schedule(roles, mode, chooser, max_steps=None):
             hist = [()]
             for t in obs.admitted:
                 if ROLE_INFO[roles[t]][0]:
-                    expect = body_of(roles[t], t, expect)
+                    expect = body_of(roles[t], t, () if roles[t] in REPLACEMENT else expect)
                     hist.append(expect)
             got = content_of(zone.nodes)
             if not zone._versions:
@@ -506,7 +510,7 @@ def eval_case(ctx: Ctx, c: dict, chooser=None):
 def gen_roles(rng):
     nw = rng.choice([2, 2, 3, 3, 3, 4, 4, 5])
     nr = rng.choice([0, 0, 1, 1, 2, 3])
-    roles = ([rng.choice(["wca", "wca", "wca", "wcr", "wra", "wra", "wcn", "wwa", "wxa", "wda"]) for _ in range(nw)]
+    roles = ([rng.choice(["wca", "wca", "wca", "wcr", "wra", "wra", "wcn", "wwa", "wxa", "wda", "wcR", "wrR"]) for _ in range(nw)]
              + [rng.choice(["rd", "rd", "rdw"]) for _ in range(nr)])
     return rng.shuffle(roles)
 
@@ -516,13 +520,17 @@ BOUNDARY_ROLES = [
     ["wca", "wca"], ["wca", "wra"], ["wra", "wca"], ["wcn", "wca"], ["wca", "wca", "wca"], ["wra", "wra", "wca"],
     ["wca", "rd"], ["wca", "wca", "rd"], ["wca", "wcr", "rd", "rd"], ["wca", "wca", "wca", "wca", "wca", "rd", "rd", "rd"],
     ["wxa", "wca"], ["wxa", "wca", "wca"], ["wwa", "wwa"], ["wda", "wca"], ["wcn", "wca", "wca"], ["wca", "rdw", "rd"],
-    ["wca", "wca", "wca", "wca"],
+    ["wca", "wca", "wca", "wca"], ["wca", "wcR"], ["wcR", "wca", "rd"], ["wca", "wrR", "wca"], ["wca", "wcR", "wca", "rd"],
 ]
+
+
+def nfail(ctx: Ctx) -> int:
+    return sum(v for k, v in ctx.hist.items() if k.startswith("oracle.fail:"))
 
 
 def enough(ctx: Ctx) -> bool:
     """stop exploring once plenty of failing schedules are in hand (never true on a tree that keeps the property)"""
-    return len(ctx.failures) >= 60
+    return nfail(ctx) >= 60
 
 
 def generate(ctx: Ctx, n: int, rng):
@@ -599,7 +607,7 @@ def exhaustive(ctx: Ctx, roles, mode, max_runs, bound=None, use_keys=True):
                 tuple(sorted(sch.observer.local.items())))
 
     runs, complete = S.dfs(once, max_runs, keyfn=keyfn if use_keys else None, preemption_bound=bound,
-                           stop_fn=lambda: enough(ctx))
+                           stop_fn=lambda: nfail(ctx) >= 3)
     tag = f"dfs.{'+'.join(roles)}.{mode}" + (f".pb{bound}" if bound is not None else "")
     ctx.count(tag + ".runs", runs)
     ctx.count(tag + (".complete" if complete else ".budget-exhausted"))
@@ -615,9 +623,9 @@ def run(ctx: Ctx):
         ctx.count("corpus")
     rng = ctx.rng
     # small exhaustive scopes also in the quick tier (sync granularity: every order of the lock/event operations)
-    exhaustive(ctx, ["wca", "wca"], "sync", 400)
-    exhaustive(ctx, ["wca", "wra"], "sync", 400)
-    exhaustive(ctx, ["wca", "wca"], "line", 2000)
+    exhaustive(ctx, ["wca", "wca"], "sync", 150)
+    exhaustive(ctx, ["wca", "wra"], "sync", 150)
+    exhaustive(ctx, ["wca", "wca"], "line", 900)
     generate(ctx, ctx.n(3000, 7000), rng)
     malformed(ctx, rng.fork(3), ctx.n(60, 600))
     if ctx.tier == "thorough":
